@@ -258,6 +258,12 @@ int start(m_mod_t *mod, bool starting) {
     
     mod->state = M_MOD_RUNNING;
     c->stats.running_modules++;
+    /*
+     * Tell it now: the callback below may change the state again (pause or stop the module,
+     * refuse the start), and notifications must come in the order of the transitions they mirror.
+     */
+    M_DEBUG("%s '%s'.\n", starting ? "Started" : "Resumed", mod->name);
+    tell_system_pubsub_msg(NULL, c, mod, M_PS_MOD_STARTED);
 
     /* Call module on_start() callback only if module is being (re)started */
     if (starting) {
@@ -266,8 +272,6 @@ int start(m_mod_t *mod, bool starting) {
     
     switch (ret) {
     case 0:
-        M_DEBUG("%s '%s'.\n", starting ? "Started" : "Resumed", mod->name);
-        tell_system_pubsub_msg(NULL, c, mod, M_PS_MOD_STARTED);
         break;
     case -1:
         /* on_start() hook returned false, we need to stop this module right away (unless it already did) */
@@ -296,6 +300,9 @@ int stop(m_mod_t *mod, bool stopping) {
         c->stats.running_modules--;
     }
     mod->state = stopping ? M_MOD_STOPPED : M_MOD_PAUSED;
+    /* Tell it now: on_stop() may start the module again, and notifications mirror transitions in their order */
+    M_DEBUG("%s '%s'.\n", stopping ? "Stopped" : "Paused", mod->name);
+    tell_system_pubsub_msg(NULL, c, mod, M_PS_MOD_STOPPED);
 
     /*
      * When module gets stopped, its write-end pubsub fd is closed too 
@@ -314,8 +321,6 @@ int stop(m_mod_t *mod, bool stopping) {
         // module was deregistered in on_stop() hook
         break;
     default:
-        M_DEBUG("%s '%s'.\n", stopping ? "Stopped" : "Paused", mod->name);
-        tell_system_pubsub_msg(NULL, c, mod, M_PS_MOD_STOPPED);
         ret = 0;
         break;
     }
